@@ -715,7 +715,7 @@ func c07JSON(c *Ctx) {
 				}
 				seen[b] = true
 				for _, i2 := range b.Instrs {
-					if call, ok := i2.(*ssa.Call); ok && call.Call.StaticCallee() == pt {
+					if call, ok := i2.(*ssa.Call); ok && (call.Call.StaticCallee() == pt || alwaysCalls(call.Call.StaticCallee(), pt, 0)) {
 						return true
 					}
 					if r, ok := i2.(*ssa.Return); ok {
@@ -823,10 +823,16 @@ func c07Hcldec(c *Ctx) {
 		if decodesChild {
 			ok := false
 			if vn != nil {
-				for _, b := range vn.Blocks {
-					for _, ins := range b.Instrs {
-						if call, isCall := ins.(*ssa.Call); isCall && call.Call.StaticCallee() == variablesFn {
-							ok = true
+				// directly, or through a helper of the package
+				for _, f := range moduleCallees(vn, 2, map[*ssa.Function]bool{}) {
+					if f != vn && (fnPkg(f) == nil || fnPkg(f).Path() != modPath+"/hcldec" || f == variablesFn) {
+						continue
+					}
+					for _, b := range f.Blocks {
+						for _, ins := range b.Instrs {
+							if call, isCall := ins.(*ssa.Call); isCall && call.Call.StaticCallee() == variablesFn {
+								ok = true
+							}
 						}
 					}
 				}
@@ -997,10 +1003,28 @@ func c07Dynblock(c *Ctx) {
 		}
 	}
 	filtered := map[string]bool{}
-	for _, b := range wv.Blocks {
-		if iff, ok := b.Instrs[len(b.Instrs)-1].(*ssa.If); ok {
-			for fv := range condFields(iff.Cond) {
-				filtered[fv] = true
+	// the conditions of Variables itself and of the helpers of the package it calls (a predicate
+	// such as refersToIterator may hold the tests); values a helper returns count as conditions
+	for _, f := range moduleCallees(wv, 2, map[*ssa.Function]bool{}) {
+		if fnPkg(f) == nil || fnPkg(f).Path() != dynblockPath {
+			continue
+		}
+		for _, b := range f.Blocks {
+			switch last := b.Instrs[len(b.Instrs)-1].(type) {
+			case *ssa.If:
+				for fv := range condFields(last.Cond) {
+					filtered[fv] = true
+				}
+			case *ssa.Return:
+				if f != wv {
+					for _, r := range last.Results {
+						if bt, ok := r.Type().Underlying().(*types.Basic); ok && bt.Kind() == types.Bool {
+							for fv := range condFields(r) {
+								filtered[fv] = true
+							}
+						}
+					}
+				}
 			}
 		}
 	}
@@ -1255,6 +1279,9 @@ func condKinds(v ssa.Value, seen map[ssa.Value]bool) (ours, inherited bool) {
 	case *ssa.BinOp:
 		if x.Op == token.EQL || x.Op == token.NEQ {
 			isRootName := func(v ssa.Value) bool {
+				if rootNameParams[v] {
+					return true
+				}
 				call, ok := v.(*ssa.Call)
 				return ok && calleeOf(&call.Call).name == "RootName"
 			}
@@ -1276,6 +1303,111 @@ func condKinds(v ssa.Value, seen map[ssa.Value]bool) (ours, inherited bool) {
 				inherited = true
 			}
 		}
+	case *ssa.Call:
+		o, i, _ := dynPredSummary(x)
+		return o, i
+	}
+	return
+}
+
+// parameters of predicate helpers that receive traversal.RootName() at a call site
+var rootNameParams = map[ssa.Value]bool{}
+
+// dynPredSummary: a call of a boolean helper of ext/dynblock in a filter condition: which iterator
+// tests the helper makes on the paths that are feasible for the constant boolean arguments of this
+// call, and whether `true` means "is an iterator" (1), "is not" (-1) or cannot be told (0).
+func dynPredSummary(call *ssa.Call) (ours, inherited bool, pol int) {
+	h := call.Call.StaticCallee()
+	if h == nil || len(h.Blocks) == 0 || fnPkg(h) == nil || fnPkg(h).Path() != dynblockPath {
+		return
+	}
+	if bt, ok := call.Type().Underlying().(*types.Basic); !ok || bt.Kind() != types.Bool {
+		return
+	}
+	consts := map[ssa.Value]bool{}
+	isConst := map[ssa.Value]bool{}
+	for k, a := range call.Call.Args {
+		if ac, ok := a.(*ssa.Call); ok && calleeOf(&ac.Call).name == "RootName" && k < len(h.Params) {
+			rootNameParams[h.Params[k]] = true // the helper is handed the root name of the traversal
+		}
+		if cn, ok := a.(*ssa.Const); ok && cn.Value != nil && k < len(h.Params) {
+			if cn.Value.String() == "true" || cn.Value.String() == "false" {
+				isConst[h.Params[k]] = true
+				consts[h.Params[k]] = cn.Value.String() == "true"
+			}
+		}
+	}
+	// feasible blocks
+	feas := map[*ssa.BasicBlock]bool{}
+	var walk func(b *ssa.BasicBlock)
+	walk = func(b *ssa.BasicBlock) {
+		if feas[b] {
+			return
+		}
+		feas[b] = true
+		if iff, ok := lastIf(b); ok {
+			cond, neg := iff.Cond, false
+			if u, ok := cond.(*ssa.UnOp); ok && u.Op == token.NOT {
+				cond, neg = u.X, true
+			}
+			if isConst[cond] {
+				v := consts[cond] != neg
+				if v {
+					walk(b.Succs[0])
+				} else {
+					walk(b.Succs[1])
+				}
+				return
+			}
+		}
+		for _, su := range b.Succs {
+			walk(su)
+		}
+	}
+	walk(h.Blocks[0])
+	pol = 2 // not yet known
+	setPol := func(p int) {
+		if pol == 2 {
+			pol = p
+		} else if pol != p {
+			pol = 0
+		}
+	}
+	for b := range feas {
+		if iff, ok := lastIf(b); ok && !isConst[iff.Cond] {
+			o, i := condKinds(iff.Cond, map[ssa.Value]bool{})
+			ours, inherited = ours || o, inherited || i
+			// a `return true` on the matching edge: true means "is an iterator"
+			if p := iteratorPolarity(iff.Cond, 0); p != 0 && (o || i) {
+				matchEdge := 0
+				if p < 0 {
+					matchEdge = 1
+				}
+				if ret, ok := b.Succs[matchEdge].Instrs[len(b.Succs[matchEdge].Instrs)-1].(*ssa.Return); ok && len(ret.Results) == 1 {
+					if cn, ok := ret.Results[0].(*ssa.Const); ok && cn.Value != nil {
+						if cn.Value.String() == "true" {
+							setPol(1)
+						} else {
+							setPol(-1)
+						}
+					}
+				}
+			}
+		}
+		if ret, ok := b.Instrs[len(b.Instrs)-1].(*ssa.Return); ok && len(ret.Results) == 1 {
+			if _, isC := ret.Results[0].(*ssa.Const); !isC {
+				o, i := condKinds(ret.Results[0], map[ssa.Value]bool{})
+				ours, inherited = ours || o, inherited || i
+				if p := iteratorPolarity(ret.Results[0], 0); p != 0 {
+					setPol(p)
+				} else if o || i {
+					setPol(0)
+				}
+			}
+		}
+	}
+	if pol == 2 {
+		pol = 0
 	}
 	return
 }
@@ -1571,6 +1703,9 @@ func iteratorPolarity(cond ssa.Value, d int) int {
 		if _, ok := x.Tuple.(*ssa.Lookup); ok && x.Index == 1 {
 			return 1
 		}
+	case *ssa.Call:
+		_, _, p := dynPredSummary(x)
+		return p
 	case *ssa.Phi:
 		pol := 0
 		for _, e := range x.Edges {
@@ -1849,6 +1984,23 @@ func c07WalkFlags(c *Ctx) {
 				for _, e := range x.Edges {
 					scan(e, d+1)
 				}
+			case *ssa.Call:
+				// a method of the node that makes the decision: every boolean field it reads
+				if cal := x.Call.StaticCallee(); cal != nil && len(cal.Blocks) > 0 && cal.Signature.Recv() != nil && len(x.Call.Args) > 0 &&
+					(x.Call.Args[0] == ssa.Value(recv) || isSpillOf(x.Call.Args[0], recv)) {
+					crecv := cal.Params[0]
+					for _, cb := range cal.Blocks {
+						for _, ci := range cb.Instrs {
+							if fa, ok := ci.(*ssa.FieldAddr); ok && (fa.X == ssa.Value(crecv) || isSpillOf(fa.X, crecv)) {
+								if fv := fieldVarOf(fa.X.Type(), fa.Field); fv != nil {
+									if bt, ok := fv.Type().Underlying().(*types.Basic); ok && bt.Kind() == types.Bool {
+										out[fv.Name()] = true
+									}
+								}
+							}
+						}
+					}
+				}
 			}
 		}
 		for b := at; b != nil; b = b.Idom() {
@@ -1968,4 +2120,38 @@ func c07WalkFlags(c *Ctx) {
 		}
 	}
 	c.Floor("walk.flags conditional walks", n, 1, "ObjectConsKeyExpr")
+}
+
+
+// alwaysCalls: every path through the module function f from its entry to a return passes a call
+// of target (directly or through such a function).
+func alwaysCalls(f, target *ssa.Function, depth int) bool {
+	if f == nil || target == nil || depth > 2 || !inModule(f) || len(f.Blocks) == 0 {
+		return false
+	}
+	seen := map[*ssa.BasicBlock]bool{}
+	var walk func(b *ssa.BasicBlock) bool
+	walk = func(b *ssa.BasicBlock) bool {
+		if seen[b] {
+			return true
+		}
+		seen[b] = true
+		for _, ins := range b.Instrs {
+			if call, ok := ins.(*ssa.Call); ok {
+				if cal := call.Call.StaticCallee(); cal == target || (cal != f && alwaysCalls(cal, target, depth+1)) {
+					return true
+				}
+			}
+			if _, ok := ins.(*ssa.Return); ok {
+				return false
+			}
+		}
+		for _, su := range b.Succs {
+			if !walk(su) {
+				return false
+			}
+		}
+		return true
+	}
+	return walk(f.Blocks[0])
 }
